@@ -24,6 +24,8 @@ type TCase struct {
 	Point bool   `json:"point"` // @[T] instead of @[S, E]
 	Seeds int    `json:"seeds"`
 	Limit int    `json:"limit"`
+	// OptOrder permutes the three evaluation options (their order must not matter).
+	OptOrder int `json:"optOrder,omitempty"`
 }
 
 func (c TCase) text() string {
@@ -105,8 +107,8 @@ func checkTemporal(run *stats.Run, f stats.Failer, c TCase) verdict {
 				panicked = fmt.Sprint(r)
 			}
 		}()
-		evalErr = engine.EvalProgram(out.Info, plain, engine.WithCreatedFactLimit(L), engine.WithTemporalStore(temporal),
-			engine.WithEvaluationTime(time.Date(2024, 6, 1, 0, 0, 0, 0, time.UTC)))
+		evalErr = engine.EvalProgram(out.Info, plain, permuteOpts([]engine.EvalOption{engine.WithCreatedFactLimit(L), engine.WithTemporalStore(temporal),
+			engine.WithEvaluationTime(time.Date(2024, 6, 1, 0, 0, 0, 0, time.UTC))}, c.OptOrder)...)
 	}()
 	if panicked != "" {
 		run.Failf(f, "evaluation under a fact limit panicked: %s\nlimit %d\n%s", panicked, L, text)
@@ -172,6 +174,7 @@ func TestC17_Temporal(t *testing.T) {
 			Seeds: rapid.IntRange(1, 3).Draw(rt, "seeds"),
 			Limit: rapid.SampledFrom([]int{1, 2, 3, 5, 8, 13, 21}).Draw(rt, "limit"),
 		}
+		c.OptOrder = rapid.IntRange(0, 5).Draw(rt, "optOrder")
 		run.Current(c)
 		vd := checkTemporal(run, rt, c)
 		run.Case(vd.nontrivial, stats.Hash(fmt.Sprintf("%+v", c)), vd.labels...)
